@@ -189,7 +189,7 @@ def run(ck):
                     continue
                 compare(rname, base, other, ext + inten, tol, sig, detail)
             # homogeneity: all loadings times k
-            k = rng.choice([0.5, 3.0, 1000.0])
+            k = rng.choice([0.001, 0.5, 3.0, 1000.0])
             raw = iso.data_raw.copy()
             raw[iso.loading_key] = raw[iso.loading_key] * k
             scaled = pg.PointIsotherm(isotherm_data=raw, pressure_key=iso.pressure_key, loading_key=iso.loading_key, **iso.to_dict())
@@ -311,6 +311,24 @@ def run(ck):
             if not (e <= 1e-4):
                 ck.fail_case({"routine": "isosteric_enthalpy", "clause": "result changes with the representation of the isotherm", "pressure_mode": "absolute" if mode == "unit" else "relative"},
                              {"representation": desc, "before": base_h.tolist(), "after": got.tolist(), "relative_difference": e})
+        # objects that have already been interpolated, then converted IN PLACE (only some of them, unit only), then analysed again
+        for j in range(NCONV * 2):
+            cs = [clone(p) for p in pts]
+            try:
+                warm = np.asarray(pgc.isosteric_enthalpy(cs, loading_points=lp)["isosteric_enthalpy"], dtype=float)
+                which = rng.sample(range(len(cs)), rng.randint(1, len(cs) - 1))
+                pu = rng.choice([u for u in P_UNITS if u != "bar"])
+                for w_ in which:
+                    cs[w_].convert_pressure(unit_to=pu)
+                got = np.asarray(pgc.isosteric_enthalpy(cs, loading_points=lp)["isosteric_enthalpy"], dtype=float)
+            except Exception as e:  # noqa
+                ck.fail_case({"routine": "isosteric_enthalpy", "clause": "routine raises after an in-place conversion", "error": type(e).__name__}, {"error": repr(e)[:300]})
+                continue
+            ck.count(("isosteric-inplace", tuple(which), pu), bucket="invariance:isosteric_enthalpy:in-place conversion of used objects")
+            e = float(np.max(np.abs(got - base_h) / np.abs(base_h)))
+            if not (e <= 1e-4) or not np.allclose(warm, base_h, rtol=1e-9):
+                ck.fail_case({"routine": "isosteric_enthalpy", "clause": "result changes with the representation of the isotherm", "history": "interpolated, converted in place, analysed again"},
+                             {"converted": which, "unit": pu, "before": base_h.tolist(), "after": got.tolist(), "relative_difference": e})
     ck.cov["worst"] = {k: float(f"{v:.3g}") for k, v in sorted(worst.items()) if v > 1e-9}
     ck.cov["n_quantities_compared"] = len(worst)
     ck.cov["rule"] = ("2 synthetic (micro / meso) and 3 measured N2 isotherms x 12-14 entry points x random representations drawn from 8 pressure units + relative + relative%, 4 loading bases x units, 3 material bases x units, "
